@@ -63,7 +63,9 @@ Definition flushed (c : chan) : chan :=
 (* ------------------------------------------------------------------ *)
 (* mux.c, bay.c                                                        *)
 
-Inductive selfun := SelDefault | SelRunning | SelActive.
+(* SelCustom g: a select function given by the model (breakdown.c select_tr / select_idle); it gets the current
+   values of the mux's input channels (it reads them through mux_get_input(mux, i)->chan) and the select value *)
+Inductive selfun := SelDefault | SelRunning | SelActive | SelCustom (g : list value -> value -> result (option nat)).
 
 (* a dirty callback: identity = (function, argument) *)
 Inductive dcb :=
@@ -196,7 +198,22 @@ Definition run_select (f : selfun) (ninputs : nat) (v : value) : result (option 
     | SelActive =>                        (* thread.c thread_select_active *)
       if negb (Nat.eqb ninputs 1) then Err E_SELECT
       else Ok (if (x =? 1) || (x =? 4) || (x =? 5) then Some 0%nat else None)
+    | SelCustom _ => Err E_SELECT         (* needs the input values: run_select_in *)
     end
+  end.
+
+(* the select function of a mux on bay b *)
+Definition input_values (b : bay) (mx : mux) : list value :=
+  map (fun c => match nth_error (b_chans b) c with Some ch => chan_read ch | None => None end) (mx_ins mx).
+Definition run_select_in (b : bay) (mx : mux) (v : value) : result (option nat) :=
+  match mx_fun mx with
+  | SelCustom g =>
+    match g (input_values b mx) v with
+    | Ok (Some i) => if Nat.ltb i (length (mx_ins mx)) then Ok (Some i) else Err E_SELECT
+    | Ok None => Ok None
+    | Err _ => Err E_SELECT
+    end
+  | f => run_select f (length (mx_ins mx)) v
   end.
 
 (* bay_enable_cb / bay_disable_cb on the cb_input of input i of mux m *)
@@ -255,7 +272,7 @@ Definition cb_select (b : bay) (m : nat) : result bay :=
              end) with
       | Err e => Err e
       | Ok b1 =>
-        match run_select (mx_fun mx) (length (mx_ins mx)) selv with
+        match run_select_in b1 mx selv with
         | Err e => Err e
         | Ok None => chan_set b1 (mx_out mx) (mx_def mx)
         | Ok (Some i) =>
@@ -299,17 +316,41 @@ Definition run_dcb (b : bay) (d : dcb) : result bay :=
   | DInput m i => cb_input b m i
   end.
 
-(* propagate_chan(bchan, BAY_CB_DIRTY): DL_FOREACH over the channel's callback list.  The list is
-   walked as the snapshot taken when the walk starts; a callback that changes the very list being
-   walked is reported as E_SELFMOD instead of guessing what the C's `cur->next` would reach. *)
-Fixpoint run_cbs (b : bay) (c : nat) (snap : list dcb) (l : list dcb) : result bay :=
+(* propagate_chan(bchan, BAY_CB_DIRTY): DL_FOREACH over the channel's callback list,
+       for (cur = head; cur; cur = cur->next) cur->func(...)
+   on the LIVE list: a callback may append to the list being walked (cb_select enabling the cb_input of an input
+   that sits on the select channel itself: breakdown.c) or delete other elements of it; the walk goes on with
+   the successor of `cur` in the list as it is after the call.  A callback that removes ITSELF from the list is
+   reported as E_SELFMOD (the C would follow the stale cur->next; no callback of the emulator does it). *)
+Fixpoint next_after (d : dcb) (l : list dcb) : option (option dcb) :=      (* None: d is not in l *)
   match l with
-  | [] => Ok b
-  | d :: r =>
-    match run_dcb b d with
+  | [] => None
+  | x :: r => if dcb_eqb d x then Some (match r with y :: _ => Some y | [] => None end) else next_after d r
+  end.
+
+Fixpoint walk_from (fuel : nat) (b : bay) (c : nat) (cur : dcb) : result bay :=
+  match fuel with
+  | O => Err E_FUEL
+  | S f =>
+    match run_dcb b cur with
     | Err e => Err e
-    | Ok b' => if dcbs_eqb (dcbs_of b' c) snap then run_cbs b' c snap r else Err E_SELFMOD
+    | Ok b' =>
+      match next_after cur (dcbs_of b' c) with
+      | None => Err E_SELFMOD
+      | Some None => Ok b'
+      | Some (Some d) => walk_from f b' c d
+      end
     end
+  end.
+
+(* enough for a list that only grows by enabling input callbacks, each at most once *)
+Definition walk_fuel (b : bay) (c : nat) : nat :=
+  S (length (dcbs_of b c) + fold_right (fun mx n => (length (mx_ins mx) + n)%nat) 0%nat (b_muxes b)).
+
+Definition run_cbs (b : bay) (c : nat) : result bay :=
+  match dcbs_of b c with
+  | [] => Ok b
+  | d :: _ => walk_from (walk_fuel b c) b c d
   end.
 
 (* bay_propagate, first DL_FOREACH(bay->dirty): position i in a list that grows while walked *)
@@ -320,7 +361,7 @@ Fixpoint dirty_phase (fuel : nat) (i : nat) (b : bay) : result bay :=
     match nth_error (b_dirty b) i with
     | None => Ok b
     | Some c =>
-      match run_cbs b c (dcbs_of b c) (dcbs_of b c) with
+      match run_cbs b c with
       | Err e => Err e
       | Ok b' => dirty_phase f (S i) b'
       end
